@@ -447,6 +447,35 @@ package tsm1
 //@   ensures failure_keeps_everything: err != nil ==> retained && !cleared && !wal_removed
 //@   ensures success_means_installed: err == nil ==> installed && cleared
 
+// ---- C01: a retried cache snapshot releases only the WAL segments that were closed when it was taken ----
+// Cache.Snapshot hands a snapshot whose write failed out again unchanged (same object); the writes made since are
+// only in the live cache, so the segments closed since must stay. The engine records, with every snapshot handed
+// out, the segments closed at that moment, and a snapshot that comes back keeps exactly those.
+//@ func (*Engine).WriteSnapshot$2
+//@   props C01
+//@   nosafety
+//@   ensures recorded_with_the_snapshot: err == nil ==> e.pendingSnapshot == snapshot && arr(e.pendingSegments) == arr(segments) && off(e.pendingSegments) == off(segments) && len(e.pendingSegments) == len(segments)
+//@   ensures retried_snapshot_keeps_its_segments: err == nil && snapshot == old(e.pendingSnapshot) ==> arr(segments) == old(arr(e.pendingSegments)) && off(segments) == old(off(e.pendingSegments)) && len(segments) == old(len(e.pendingSegments))
+
+//@ func (*Cache).Snapshot
+//@   props C01
+//@   nosafety
+//@   modifies *except Engine.all
+//@   ensures pending_snapshot_is_handed_out_again: result1 == nil && old(c.snapshot) != nil && (old(c.snapshot.size) + old(c.snapshot.snapshotSize)) % 18446744073709551616 != 0 ==> result0 == old(c.snapshot) && c.snapshot == old(c.snapshot)
+//@   ensures one_at_a_time: old(c.snapshotting) ==> result1 != nil
+
+//@ func newring
+//@   assumed
+//@   modifies nothing
+
+//@ func (*WAL).CloseSegment
+//@   assumed
+//@   modifies *except Engine.all Cache.all
+
+//@ func (*WAL).ClosedSegments
+//@   assumed
+//@   modifies nothing
+
 // ---- C01: a WAL write is acknowledged only after its entry was written and its fsync result received ----
 // the locked section: success means the entry was handed to the segment writer and a sync waiter was queued
 //@ func (*WAL).writeToLog$1
